@@ -2,6 +2,7 @@ package checks
 
 import (
 	"math/rand"
+	"strconv"
 	"time"
 
 	"gosym/oracle"
@@ -87,6 +88,14 @@ func buildC11(tier string, seed int64) *Family {
 			in.Params["nodup"] = "1"
 		}
 		insts = append(insts, in)
+	}
+	// identity key kernel on abstract position paths (sibling indices 1, 2, 11, 12; depth <= 3)
+	kindNames := []string{"element", "text", "comment", "attribute"}
+	for kx := 0; kx < 4; kx++ {
+		for ky := kx; ky < 4; ky++ {
+			insts = append(insts, &vm.Instance{ID: "identity kernel: " + kindNames[kx] + " vs " + kindNames[ky] + " on position paths with one- and two-digit indices", Harness: "H_identity",
+				Params: map[string]string{"abstracthash": "1", "kindx": strconv.Itoa(kx), "kindy": strconv.Itoa(ky)}})
+		}
 	}
 	return &Family{
 		Instances: dedupInst(insts),
